@@ -125,7 +125,8 @@ def run_case(rs, ctx):
         if mode == 0:
             cfg["np"] = {"kind": "tree", "params": {}, "default": True}  # NeighborhoodPolicy.TreeBandit(): shared default dict
         elif mode == 1:
-            cfg["np"] = {"kind": "tree", "params": {"max_depth": 1}}  # tie-rich splits: random_state matters
+            # tie-rich splits: random_state matters (an explicit None is scikit-learn's own default and a legal value)
+            cfg["np"] = {"kind": "tree", "params": gen.pick(rs, [{"max_depth": 1}, {"max_depth": 1, "random_state": None}])}
     nf = 3 if l == "lints" else 2
     sh = gen.Shadow(cfg, nf)
     ops = gen.gen_ops(rs, cfg, sh, 1, ["fit"], train_rows=(6, 16)) + gen.gen_ops(
